@@ -643,3 +643,341 @@ Definition parse_names (c : cfg) (t : ntree) : res skel :=
           end
       end
   end.
+
+(* ------------------------------------------------------------------------------------------ *)
+(* M3: generic operation syntax at token level.
+   Tokens are the MLIR lexer's tokens; identifiers and literals other than %names and ^names are
+   opaque codes.  Conventions for the codes (fixed by the harness when it reads the real token stream):
+     TStrL k, k < 100     string literal that is the name of a registered operation
+     TStrL k, k >= 100    any other string literal (attribute value or quoted key)
+     TBare k, k < 100     bare identifier that is not a type keyword (attribute key)
+     TBare k, k >= 100    bare identifier that is a builtin type keyword (i32, index, ...)
+     TAt k                @symbol
+   print_op_with_default_format / print_region / print_block / print_function_type  ->  toks_op
+   parse_operation (generic branch) / _parse_generic_operation / parse_region_list /
+   parse_optional_region / _parse_block / parse_function_type                         ->  parse_op *)
+
+Inductive tok :=
+| TPct (s : str) | TCaret (s : str) | TBare (k : Z) | TStrL (k : Z) | TAt (k : Z)
+| TLP | TRP | TLB | TRB | TLS | TRS | TLT | TGT | TComma | TColon | TEq | TArrow.
+
+Definition atom_tok (a : atom) : tok :=
+  match a with ABare k => TBare k | AStr k => TStrL k | AAt k => TAt k end.
+Definition is_type_atom (a : atom) : bool := match a with ABare k => (100 <=? k)%Z | _ => false end.
+Definition is_key_atom (a : atom) : bool :=
+  match a with ABare _ => true | AStr _ => true | AAt _ => false end.
+Definition is_val_atom (a : atom) : bool :=
+  match a with ABare k => (100 <=? k)%Z | AStr k => (100 <=? k)%Z | AAt _ => true end.
+Definition atom_eqb (a b : atom) : bool :=
+  match a, b with
+  | ABare x, ABare y | AStr x, AStr y | AAt x, AAt y => Z.eqb x y
+  | _, _ => false
+  end.
+
+Fixpoint sep_by (l : list (list tok)) : list tok :=
+  match l with
+  | [] => []
+  | [x] => x
+  | x :: r => x ++ TComma :: sep_by r
+  end.
+
+Definition toks_entry (e : entry) : list tok :=
+  match e with
+  | (k, None) => [atom_tok k]
+  | (k, Some v) => [atom_tok k; TEq; atom_tok v]
+  end.
+Definition toks_dict (es : list entry) : list tok := TLB :: sep_by (map toks_entry es) ++ [TRB].
+Definition toks_types (l : list atom) : list tok := TLP :: sep_by (map (fun a => [atom_tok a]) l) ++ [TRP].
+
+Fixpoint toks_op (o : ntree) : list tok :=
+  match o with
+  | Op nm res args succs props regs attrs it ot =>
+      (match res with [] => [] | _ => sep_by (map (fun n => [TPct n]) res) ++ [TEq] end)
+      ++ [TStrL nm; TLP] ++ sep_by (map (fun n => [TPct n]) args) ++ [TRP]
+      ++ (match succs with [] => [] | _ => TLS :: sep_by (map (fun n => [TCaret n]) succs) ++ [TRS] end)
+      ++ (match props with [] => [] | _ => TLT :: toks_dict props ++ [TGT] end)
+      ++ (match regs with
+          | [] => []
+          | _ => TLP :: sep_by (map (fun r : list (block str str (option str)) =>
+                                       TLB :: flat_map toks_block r ++ [TRB]) regs) ++ [TRP]
+          end)
+      ++ (match attrs with [] => [] | _ => toks_dict attrs end)
+      ++ [TColon] ++ toks_types it ++ [TArrow]
+      ++ (match ot with [t] => [atom_tok t] | _ => toks_types ot end)
+  end
+with toks_block (b : block str str (option str)) : list tok :=
+  match b with
+  | Bk lab bargs ops =>
+      (match lab with
+       | None => []
+       | Some n =>
+           TCaret n ::
+           (match bargs with
+            | [] => []
+            | _ => TLP :: sep_by (map (fun a : str * atom => [TPct (fst a); TColon; atom_tok (snd a)]) bargs) ++ [TRP]
+            end) ++ [TColon]
+       end) ++ flat_map toks_op ops
+  end.
+
+(* --- parser --- *)
+(* parse_comma_separated_list after the opening delimiter: `close`, or elements separated by commas *)
+Fixpoint parse_commas {A} (pe : list tok -> option (A * list tok)) (close : tok -> bool) (fuel : nat)
+  (ts : list tok) : option (list A * list tok) :=
+  match fuel with
+  | O => None
+  | S f =>
+      match pe ts with
+      | None => None
+      | Some (a, ts1) =>
+          match ts1 with
+          | TComma :: ts2 =>
+              match parse_commas pe close f ts2 with
+              | Some (r, ts3) => Some (a :: r, ts3)
+              | None => None
+              end
+          | t :: ts2 => if close t then Some ([a], ts2) else None
+          | [] => None
+          end
+      end
+  end.
+Definition parse_list {A} (pe : list tok -> option (A * list tok)) (close : tok -> bool) (ts : list tok)
+  : option (list A * list tok) :=
+  match ts with
+  | t :: ts' => if close t then Some ([], ts') else parse_commas pe close (length ts) ts
+  | [] => None
+  end.
+Definition is_rp (t : tok) : bool := match t with TRP => true | _ => false end.
+Definition is_rb (t : tok) : bool := match t with TRB => true | _ => false end.
+Definition is_rs (t : tok) : bool := match t with TRS => true | _ => false end.
+
+Definition tok_atom (t : tok) : option atom :=
+  match t with TBare k => Some (ABare k) | TStrL k => Some (AStr k) | TAt k => Some (AAt k) | _ => None end.
+Definition p_pct (ts : list tok) : option (str * list tok) :=
+  match ts with TPct n :: r => Some (n, r) | _ => None end.
+Definition p_caret (ts : list tok) : option (str * list tok) :=
+  match ts with TCaret n :: r => Some (n, r) | _ => None end.
+Definition p_type (ts : list tok) : option (atom * list tok) :=
+  match ts with
+  | t :: r => match tok_atom t with Some a => if is_type_atom a then Some (a, r) else None | None => None end
+  | [] => None
+  end.
+(* _parse_attribute_entry *)
+Definition p_entry (ts : list tok) : option (entry * list tok) :=
+  match ts with
+  | t :: r =>
+      match tok_atom t with
+      | Some k =>
+          if is_key_atom k then
+            match r with
+            | TEq :: v :: r' =>
+                match tok_atom v with
+                | Some a => if is_val_atom a then Some ((k, Some a), r') else None
+                | None => None
+                end
+            | _ => Some ((k, None), r)
+            end
+          else None
+      | None => None
+      end
+  | [] => None
+  end.
+Fixpoint dup_key (l : list entry) : bool :=
+  match l with
+  | [] => false
+  | (k, _) :: r => existsb (fun e => atom_eqb k (fst e)) r || dup_key r
+  end.
+Definition p_dict (ts : list tok) : option (list entry * list tok) :=
+  match ts with
+  | TLB :: r =>
+      match parse_list p_entry is_rb r with
+      | Some (es, r') => if dup_key es then None else Some (es, r')
+      | None => None
+      end
+  | _ => None
+  end.
+Definition p_barg (ts : list tok) : option ((str * atom) * list tok) :=
+  match ts with
+  | TPct n :: TColon :: r => match p_type r with Some (a, r') => Some ((n, a), r') | None => None end
+  | _ => None
+  end.
+
+Definition op_start (t : tok) : bool := match t with TPct _ | TStrL _ => true | _ => false end.
+
+(* a sequence of items each recognised by its first token *)
+Fixpoint parse_seq {A} (pe : list tok -> option (A * list tok)) (start : tok -> bool) (fuel : nat) (ts : list tok)
+  : option (list A * list tok) :=
+  match fuel with
+  | O => None
+  | S f =>
+      match ts with
+      | t :: _ =>
+          if start t then
+            match pe ts with
+            | Some (a, ts1) =>
+                match parse_seq pe start f ts1 with
+                | Some (r, ts2) => Some (a :: r, ts2)
+                | None => None
+                end
+            | None => None
+            end
+          else Some ([], ts)
+      | [] => Some ([], ts)
+      end
+  end.
+
+Definition is_caret (t : tok) : bool := match t with TCaret _ => true | _ => false end.
+
+Section WithOp.
+(* the parser of nested operations *)
+Variable po : list tok -> option (ntree * list tok).
+
+Definition p_ops (ts : list tok) : option (list ntree * list tok) := parse_seq po op_start (length ts) ts.
+
+(* _parse_block *)
+Definition p_block (ts : list tok) : option (block str str (option str) * list tok) :=
+  match ts with
+  | TCaret n :: r =>
+      let after_args :=
+        match r with
+        | TLP :: r1 => parse_list p_barg is_rp r1
+        | _ => Some ([], r)
+        end in
+      match after_args with
+      | Some (bs, TColon :: r3) =>
+          match p_ops r3 with
+          | Some (ops, r4) => Some (Bk (Some n) bs ops, r4)
+          | None => None
+          end
+      | _ => None
+      end
+  | _ => None
+  end.
+
+(* parse_optional_region *)
+Definition p_region (ts : list tok) : option (list (block str str (option str)) * list tok) :=
+  match ts with
+  | TLB :: r =>
+      let entry :=
+        match r with
+        | t :: _ =>
+            if is_caret t || is_rb t then Some ([], r)
+            else match p_ops r with
+                 | Some (ops, r1) => Some ([Bk None [] ops], r1)
+                 | None => None
+                 end
+        | [] => None
+        end in
+      match entry with
+      | Some (b0, r1) =>
+          match parse_seq p_block is_caret (length r1) r1 with
+          | Some (bs, TRB :: r2) => Some (b0 ++ bs, r2)
+          | _ => None
+          end
+      | None => None
+      end
+  | _ => None
+  end.
+
+Definition is_eq (t : tok) : bool := match t with TEq => true | _ => false end.
+
+(* parse_operation, generic branch *)
+Definition p_op_body (ts : list tok) : option (ntree * list tok) :=
+  let after_results :=
+    match ts with
+    | TPct _ :: _ => parse_commas p_pct is_eq (length ts) ts
+    | _ => Some ([], ts)
+    end in
+  match after_results with
+  | Some (res, TStrL nm :: TLP :: r0) =>
+      if (nm <? 100)%Z then
+      match parse_list p_pct is_rp r0 with
+      | Some (args, r1) =>
+          let after_succ :=
+            match r1 with
+            | TLS :: r1' => parse_list p_caret is_rs r1'
+            | _ => Some ([], r1)
+            end in
+          match after_succ with
+          | Some (succs, r2) =>
+              let after_props :=
+                match r2 with
+                | TLT :: r2' =>
+                    match p_dict r2' with
+                    | Some (ps, TGT :: r2'') => Some (ps, r2'')
+                    | _ => None
+                    end
+                | _ => Some ([], r2)
+                end in
+              match after_props with
+              | Some (props, r3) =>
+                  let after_regs :=
+                    match r3 with
+                    | TLP :: r3' => parse_list p_region is_rp r3'
+                    | _ => Some ([], r3)
+                    end in
+                  match after_regs with
+                  | Some (regs, r4) =>
+                      let after_attrs :=
+                        match r4 with
+                        | TLB :: _ => p_dict r4
+                        | _ => Some ([], r4)
+                        end in
+                      match after_attrs with
+                      | Some (attrs, TColon :: TLP :: r5) =>
+                          match parse_list p_type is_rp r5 with
+                          | Some (it, TArrow :: r6) =>
+                              let outs :=
+                                match r6 with
+                                | TLP :: r6' => parse_list p_type is_rp r6'
+                                | _ => match p_type r6 with Some (a, r7) => Some ([a], r7) | None => None end
+                                end in
+                              match outs with
+                              | Some (ot, r8) =>
+                                  if (length args =? length it) &&
+                                     (match res with [] => true | _ => length res =? length ot end)
+                                  then Some (Op nm res args succs props regs attrs it ot, r8)
+                                  else None
+                              | None => None
+                              end
+                          | _ => None
+                          end
+                      | _ => None
+                      end
+                  | None => None
+                  end
+              | None => None
+              end
+          | None => None
+          end
+      | None => None
+      end
+      else None
+  | _ => None
+  end.
+End WithOp.
+
+Fixpoint parse_op (fuel : nat) (ts : list tok) : option (ntree * list tok) :=
+  match fuel with
+  | O => None
+  | S f => p_op_body (parse_op f) ts
+  end.
+
+(* parse_module: operations up to the end of the input; a single builtin.module is the result, anything
+   else is wrapped into an implicit module *)
+Definition module_nm : Z := 7%Z.
+Definition parse_toks (ts : list tok) : option ntree :=
+  match parse_seq (parse_op (length ts)) (fun _ => true) (length ts) ts with
+  | Some ([Op nm res args succs props regs attrs it ot as o], []) =>
+      if (nm =? module_nm)%Z then Some o
+      else Some (Op module_nm [] [] [] [] [[Bk None [] [o]]] [] [] [])
+  | Some (_ :: _ as ops, []) => Some (Op module_nm [] [] [] [] [[Bk None [] ops]] [] [] [])
+  | _ => None
+  end.
+
+(* the whole pipeline: text (tokens) of a skeleton, and back *)
+Definition print_ir (c : cfg) (ir : skel) : list tok := toks_op (print_names c ir).
+Definition parse_ir (c : cfg) (ts : list tok) : res skel :=
+  match parse_toks ts with
+  | Some t => parse_names c t
+  | None => Err ESyntax
+  end.
